@@ -97,9 +97,9 @@ def seeded_extreme(t: Term):
     if a[0] != "concat":
         return None
     parts = [_unvar(x) for x in a[1]]
-    comps = [x for x in parts if x[0] == "comp" and x[1] == "list"]
-    seeds = [y for x in parts if x[0] == "list" for y in x[1]]
-    if len(comps) != 1 or len(seeds) != 1 or len(comps) + len([x for x in parts if x[0] == "list"]) != len(parts):
+    comps = [x for x in parts if x[0] == "comp" and x[1] in ("list", "gen")]
+    seeds = [y for x in parts if x[0] in ("list", "tuple") for y in x[1]]
+    if len(comps) != 1 or len(seeds) != 1 or len(comps) + len([x for x in parts if x[0] in ("list", "tuple")]) != len(parts):
         return None
     ce = comprehension_extreme(("call", t[1], (("comp", "gen") + comps[0][2:],), ()))
     if ce is None:
